@@ -146,7 +146,10 @@ class History(Part):
         q = st.tuples(st.just("q"), s)
         again = st.tuples(st.just("again"), st.integers(0, 30))
         flood = st.one_of(st.tuples(st.just("flood_str"), st.integers(0, 5)), st.tuples(st.just("flood_cp"), st.integers(0, 5)))
-        op = st.one_of(q, q, again, again, flood)
+        # resizing goes through the same caches: set_cell_size calls (also with the negative totals that rich itself produces, e.g. truncating to 0 cells with an ellipsis)
+        setop = st.tuples(st.just("set"), st.tuples(s, st.integers(-3, 12)).map(list))
+        q = st.one_of(q, q, q, st.just(("q", "")))
+        op = st.one_of(q, q, again, again, flood, setop)
         free = st.lists(op, min_size=2, max_size=25)
         # shaped histories: queries, a flood, the same strings again (eviction between two queries of one string)
         shaped = st.builds(lambda qs, f, ag, tail: qs + [f] + ag + tail, st.lists(q, min_size=1, max_size=6), flood, st.lists(again, min_size=1, max_size=6), st.lists(op, max_size=5))
@@ -176,6 +179,18 @@ class History(Part):
                     return
                 if len(s) > 64:
                     ctx.cls("long-uncached")
+            elif kind == "set":
+                text, total = arg
+                out = sut(RC.set_cell_size, text, total)
+                if total >= 0 and OC.width(out) != total:
+                    ctx.violation("history", "C13/history/set", "set_cell_size(%r, %d) -> %r (%d cells) at op %d" % (text, total, out, OC.width(out), i))
+                    return
+                for probe in ("", out, text):
+                    got = sut(RC.cell_len, probe)
+                    if got != OC.width(probe):
+                        ctx.violation("history", "C13/history/cell_len-after-resize", "after set_cell_size(%r, %d): cell_len(%r)=%r, table sum %r" % (text, total, probe, got, OC.width(probe)))
+                        return
+                ctx.cls("resize-in-history")
             elif kind == "flood_str":
                 base = 0x4E00 + arg * 5000
                 for k in range(4200):
@@ -255,6 +270,13 @@ class Resize(Part):
 
     def check(self, spec, ctx):
         from rich import cells as RC
+
+        if spec["op"] == "chop":
+            # what a caller does with the list it got back must not matter to the next caller
+            for first in (sut(RC.chop_cells, spec["s"], spec["w"], spec["p"]), sut(RC.chop_cells, spec["s"], spec["w"], position=spec["p"])):
+                if isinstance(first, list):
+                    first.append("<edited by the caller>")
+                    first[0] = ""
 
         s = spec["s"]
         if spec["op"] == "set":
